@@ -1726,7 +1726,8 @@ fn local_sequences(max_len: usize, family: &str, keep: impl Fn(&[u8]) -> bool) -
 pub fn multi_parent_attach_programs() -> Vec<Program> {
     let mut out = Vec::new();
     let mut idx = 0;
-    for n_roots in [2usize, 3] {
+    // (`unsampled`: which of the roots is unsampled, usize::MAX for none)
+    for (n_roots, unsampled) in [(2usize, usize::MAX), (3, usize::MAX), (2, 0), (2, 1), (3, 0), (3, 1), (3, 2)] {
         for route in 0..4 {
             for roots_finish_first in [false, true] {
                 for on_descendant in [false, true] {
@@ -1734,7 +1735,7 @@ pub fn multi_parent_attach_programs() -> Vec<Program> {
                     let mut ops: Vec<Op> = Vec::new();
                     let parents: Vec<u32> = (0..n_roots as u32).collect();
                     for k in 0..n_roots {
-                        ops.push(root(k as u32, &format!("r{k}"), 0x600 + k as u128));
+                        ops.push(Op::Root { slot: k as u32, name: format!("r{k}"), trace: U128(0x600 + k as u128), remote_parent: 0, sampled: k != unsampled, props: vec![] });
                     }
                     ops.push(Op::Child { slot: 10, name: "m".into(), parents: parents.clone(), single: false, props: p("ck", "cv") });
                     let target = if on_descendant {
